@@ -120,7 +120,7 @@ def expired (s : CState) (m : Msg) : CState × List Out :=
         let st' := { st with status := aset st.status sseq sExpired }
         let s2 := { s1 with segStatus := aset s1.segStatus ref st' }
         let (s3, code) := cumulated s2 ref
-        if code = sExpired then (s3, [.sendError st'.orig]) else (s3, [])
+        if code = sExpired ∨ code = sFailed then (s3, [.sendError st'.orig]) else (s3, [])
       | none => (s1, [])
     | none => (s, [.sendError m])
   else (s, [])
@@ -155,7 +155,7 @@ def put (s : CState) (now : Nat) (m : Msg) : CState × List Out :=
     let s3 := { s2 with segStore := aset s2.segStore m.seq (m.sarRef, m.sarSeq) }
     let st := match aget s3.segStatus m.sarRef with
       | some st => st
-      | none => { status := [], orig := m }
+      | none => { status := (List.range' 1 m.sarTotal).map fun q => (q, sSending), orig := m }
     let st' := { st with status := aset st.status m.sarSeq sSending }
     ({ s3 with segStatus := aset s3.segStatus m.sarRef st' }, outs)
   else (s2, outs)
@@ -317,14 +317,23 @@ def handleResponse (s : CState) (now : Nat) (resp : Msg) :
       let tc := if isThrottleStatus resp.status then [ThrottleCall.throttled] else [.notThrottled]
       let resp' := { resp with logId := o.logId, extra := o.extra }
       let s1 := fixLast (get s now resp).1 resp resp'
-      if resp.kind = .submitSmResp ∧ resp.status = 0 then
-        let pd := putDelivery s1 now resp.msgId o
-        let gs := getSegmented pd.1 resp.seq false
-        (gs.1, (get s now resp).2.1 ++ pd.2, tc,
-          match gs.2.1 with
-          | some st => if gs.2.2 = sSending then .placeholder else .msg (st.lastResponse.getD resp')
-          | none => .msg resp')
-      else (s1, (get s now resp).2.1, tc, .msg resp')
+      -- accepted: remember the SMSC message id for the delivery receipt
+      let pd := if resp.kind = .submitSmResp ∧ resp.status = 0 then putDelivery s1 now resp.msgId o
+                else (s1, [])
+      -- every response to a registered segment goes through the segment status (repair 30f1721)
+      let gs := getSegmented pd.1 resp.seq false
+      (gs.1,
+        (get s now resp).2.1 ++ pd.2 ++
+          (match gs.2.1 with
+           | some st => if gs.2.2 = sExpired then [Out.sendError st.orig] else []
+           | none => []),
+        tc,
+        match gs.2.1 with
+        | some st =>
+          if gs.2.2 = sSending then .placeholder
+          else if gs.2.2 = sExpired then .placeholder          -- reported by send_error (repair dec7b5c)
+          else .msg (st.lastResponse.getD resp')
+        | none => .msg resp')
     else ((get s now resp).1, (get s now resp).2.1, [], .msg resp)
 
 /-- `_handle_request` for a parsed DeliverSm (state, hook calls of the sweep, result) -/
